@@ -29,8 +29,8 @@ func genC31(o *Out) {
 	fh := o.pinFile("util/hint/hint.go", "NewHint", "EnsureParseHint", "ParseHint", "parseHint", "Hint.IsValid", "hintString", "Hint.Equal", "Hint.IsCompatible")
 	ft := o.pinFile("util/hint/type.go", "Type.IsValid")
 	fs := o.pinFile("util/hint/set.go", "NewCompatibleSet", "CompatibleSet.add", "CompatibleSet.addWithHint", "CompatibleSet.Find", "CompatibleSet.FindByString",
-		"CompatibleSet.FindBytType", "CompatibleSet.FindBytTypeString", "CompatibleSet.find", "CompatibleSet.findBytType", "CompatibleSet.cacheGet", "CompatibleSet.cacheSet")
-	o.pinFile("util/version.go", "EnsureParseVersion", "ParseVersion", "newVersion", "Version.IsValid", "Version.Compare", "Version.IsCompatible")
+		"CompatibleSet.FindBytType", "CompatibleSet.FindBytTypeString", "CompatibleSet.find", "CompatibleSet.findBytType", "CompatibleSet.cacheGet", "CompatibleSet.cacheSet", "hintCacheKey", "typeCacheKey")
+	o.pinFile("util/version.go", "EnsureParseVersion", "ParseVersion", "newVersion", "Version.IsValid", "Version.Compare", "Version.IsCompatible", "compareVersionMainPart", "compareVersionPrerelease", "versionNextIdent", "versionIsNum")
 	if fh != nil {
 		if v, ok := regexSource(fh, "regVersion"); ok {
 			o.str("regVersion", v)
@@ -98,12 +98,43 @@ func genC31(o *Out) {
 		if fd := fs.Func("CompatibleSet", "add"); fd != nil {
 			for _, st := range fd.Body.List {
 				src := normSpace(fs.Src(st))
-				if strings.HasPrefix(src, "st.cacheSet(ht.String(),") {
+				if strings.HasPrefix(src, "st.cacheSet(ht.String(),") || strings.HasPrefix(src, "st.cacheSet(hintCacheKey(ht.String()),") {
 					eff = strings.Contains(src, "st.set[ht.Type()][ht.Version().Major()]")
 				}
 			}
 		}
 		o.boolean("addCachesEffective", eff)
+		// cache keys of hint lookups and of type lookups come from different key functions
+		sep := true
+		want := map[string]string{"Find": "hintCacheKey(", "FindByString": "hintCacheKey(", "find": "hintCacheKey(", "add": "hintCacheKey(",
+			"FindBytType": "typeCacheKey(", "FindBytTypeString": "typeCacheKey(", "findBytType": "typeCacheKey("}
+		for fn, key := range want {
+			fd := fs.Func("CompatibleSet", fn)
+			if fd == nil {
+				sep = false
+				continue
+			}
+			ast.Inspect(fd.Body, func(n ast.Node) bool {
+				ce, ok := n.(*ast.CallExpr)
+				if !ok || len(ce.Args) < 1 {
+					return true
+				}
+				name := fs.Src(ce.Fun)
+				if name == "st.cacheGet" || name == "st.cacheSet" {
+					if !strings.HasPrefix(normSpace(fs.Src(ce.Args[0])), key) {
+						sep = false
+					}
+				}
+				return true
+			})
+		}
+		for _, kf := range [][2]string{{"hintCacheKey", `"h:" + s`}, {"typeCacheKey", `"t:" + s`}} {
+			fd := fs.Func("", kf[0])
+			if fd == nil || len(returnsOf(fd)) != 1 || normSpace(fs.Src(returnsOf(fd)[0].Results[0])) != kf[1] {
+				sep = false
+			}
+		}
+		o.boolean("cacheKeySpacesSeparate", sep)
 		size := int64(-1)
 		if fd := fs.Func("", "NewCompatibleSet"); fd != nil {
 			ast.Inspect(fd.Body, func(n ast.Node) bool {
